@@ -70,6 +70,15 @@ pub fn recv_one(data: &[u8], mask: &[&str], known: &Known) -> Vec<Found> {
     // checksum fix-up: with bit 7 of the selector byte set the PEC is repaired,
     // so that the fuzzer can reach the logic behind the PEC check by mutating
     // a single byte (coverage feedback cannot guide it through a CRC)
+    // likewise for the frame the SMBus byte count announces: with the capacity bits
+    // all ones, the byte at the announced PEC position (inside the input) is made
+    // consistent with the bytes before it
+    if (data[0] >> 2) & 0x1F == 0x1F && bytes.len() >= 3 {
+        let pos = bytes[2] as usize + 3;
+        if pos < bytes.len() {
+            bytes[pos] = crate::crc::crc8(&bytes[..pos]);
+        }
+    }
     if data[0] & 0x80 != 0 && !bytes.is_empty() {
         refmodel::fix_pec(&mut bytes);
     }
